@@ -489,8 +489,11 @@ package store
 //@   properties C06 C16
 //@   ghost var statOk mathint = 0
 //@   ghost var lastJoinId string = ""
+//   stId / stLatest  what RunId() / LatestOffset() answer (ghosts of the channel-level contracts in package syncer): a lookup may change both
+//@   ghost var stId string
+//@   ghost var stLatest mathint
 //@   requires nonnil: s != nil
-//@   modifies heap, statOk, lastJoinId
+//@   modifies heap, statOk, lastJoinId, stId, stLatest
 //@   set lastJoinId = elem[1] after call Join
 //@   set statOk = ite(result1 == nil, 1, 0) after call Stat
 //@   assert at call SetRunId: a_lookup_opens_the_cache_only_under_an_id_it_is_filed_under: statOk == 1 && new == lastJoinId
